@@ -65,6 +65,11 @@ def run_twice(n=6, tag="determinism"):
     rdir = new_replay_dir("C06", tag)
     diffs, detail = [], {}
     progs = dict(PROGRAMS)
+    # several imported modules, each with resources, declarations and references of its own: whatever walks the module set
+    # must not leave its order in the document
+    progs["resources-and-references-in-five-modules"] = dict(
+        [("main.oal", "".join('use "m%d.oal" as m%d;\n' % (i, i) for i in range(5)) + "res /health on get -> <{ " + ", ".join("'k%d m%d.t%d" % (i, i, i) for i in range(5)) + " }>;\n")] +
+        [("m%d.oal" % i, "let @r%d = { 'self? @r%d, 'v num };\nlet t%d = { 'next? t%d, 'r @r%d };\nres /m%d on get -> <t%d>;\nres /m%d/{ 'id int } on put : <@r%d> -> <@r%d>;\n" % ((i,) * 10)) for i in range(5)])
     # a long file (more parse results than any bounded table keeps) that ends in implicitly named recursions: whatever is
     # evicted or rebuilt on the way must not show in the generated names
     progs["long-file-then-implicit-recursions"] = "".join("let v%d = { 'a num, 'b [str] };\n" % i for i in range(6000)) + \
@@ -79,7 +84,7 @@ def run_twice(n=6, tag="determinism"):
         else:
             files = {"main.oal": src} if src else {"m.oal": "let t = { 'q str };\nlet u x = [x];\n", "main.oal": 'use "m.oal" as m;\nres /m on get -> <m.u m.t>;\n'}
         outs = []
-        for i in range(n if name in PROGRAMS else 3):
+        for i in range(n if (name in PROGRAMS or name.startswith("resources-and-")) else 3):
             # same sources at the same location every time (implicit component names hash the module URL)
             d = os.path.join(rdir, name)
             try:
